@@ -161,16 +161,11 @@ Lemma get_T16_wire c seq v tags :
 Proof. reflexivity. Qed.
 
 (* the Wire events of send_msg: none, or exactly the encoded message *)
-Lemma send_tail_wires c m w0 w :
-  wires (re (send_tail c m w0 w)) = [] \/
-  exists seq, wires (re (send_tail c m w0 w)) = [mkMsg (mtype m) (wire_tags c seq m)].
+Lemma send_write_wires c m w :
+  wires (re (send_write c m w)) = [] \/
+  exists seq, wires (re (send_write c m w)) = [mkMsg (mtype m) (wire_tags c seq m)].
 Proof.
-  unfold send_tail. rewrite bind_unfold.
-  destruct (match mkind m, treq w0 with KTestReq, None => raise XConn | _, _ => ret tt end w) as [r1 w1 e1] eqn:E1.
-  assert (He1 : e1 = [] /\ w1 = w).
-  { destruct (mkind m), (treq w0); cbn in E1; inversion E1; auto. }
-  destruct He1; subst e1 w1. cbn [rv rw re]. destruct r1; cbn [rv rw re]; [|left; reflexivity].
-  cbn [app]. rewrite bind_unfold.
+  unfold send_write. rewrite bind_unfold.
   unfold encode. destruct (raw_seq m).
   - destruct (get T34 (mtags m)); [|left; reflexivity]. destruct (py_int s); [|left; reflexivity].
     msimp. destruct (wr w); msimp; [|left; reflexivity].
@@ -180,6 +175,18 @@ Proof.
     destruct (wr (set_nout (nout w + 1) w)) eqn:Ew; msimp; [|left; reflexivity].
     right. exists (nout w). cbn [wires].
     rewrite (wires_nil _ (persist_out_allev not_wire _ _ _)). reflexivity.
+Qed.
+
+Lemma send_tail_wires c m w0 w :
+  wires (re (send_tail c m w0 w)) = [] \/
+  exists seq, wires (re (send_tail c m w0 w)) = [mkMsg (mtype m) (wire_tags c seq m)].
+Proof.
+  unfold send_tail. rewrite bind_unfold.
+  destruct (match mkind m, treq w0 with KTestReq, None => raise XConn | _, _ => ret tt end w) as [r1 w1 e1] eqn:E1.
+  assert (He1 : e1 = [] /\ w1 = w).
+  { destruct (mkind m), (treq w0); cbn in E1; inversion E1; auto. }
+  destruct He1; subst e1 w1. cbn [rv rw re]. destruct r1; cbn [rv rw re]; [|left; reflexivity].
+  cbn [app]. apply send_write_wires.
 Qed.
 
 Lemma send_msg_wires c m w :
